@@ -489,25 +489,26 @@ def null_from(
 ) -> list[int]:
     result = []
     skipped = []
-
-    def scan(n: int) -> None:
-        nonlocal result
+    # an explicit work list: recursing once per epsilon edge overflows the
+    # Python stack on long automata (the order of visits does not matter,
+    # the result is sorted)
+    work = [node]
+    while work:
+        n = work.pop()
         edges = nfa[n]
         if len(edges) == 1 and not edges[0].get("term"):
             # a cycle of epsilon edges (e.g. `a{0,1}*`) must not be followed twice
-            if n in skipped:
-                return None
-            skipped.append(n)
-            return scan(cast(int, edges[0]["to"]))
+            if n not in skipped:
+                skipped.append(n)
+                work.append(cast(int, edges[0]["to"]))
+            continue
         if n in result:
-            return None
+            continue
         result.append(n)
         for edge in edges:
             term, to = edge.get("term"), edge.get("to")
             if not term and to not in result:
-                scan(cast(int, to))
-
-    scan(node)
+                work.append(cast(int, to))
     return sorted(result)
 
 
@@ -519,8 +520,18 @@ class DFAState(NamedTuple):
 def dfa(nfa: list[list[Edge]]) -> ContentMatch:
     labeled = {}
 
-    def explore(states: list[int]) -> ContentMatch:
-        nonlocal labeled
+    def make(states: list[int]) -> ContentMatch:
+        state = ContentMatch((len(nfa) - 1) in states)
+        labeled[",".join([str(s) for s in states])] = state
+        return state
+
+    # states are expanded from a work list rather than recursively (one stack
+    # frame per automaton state overflows the Python stack on long sequences)
+    start_states = null_from(nfa, 0)
+    start = make(start_states)
+    work = [(start, start_states)]
+    while work:
+        state, states = work.pop()
         out: list[DFAState] = []
         for node in states:
             for item in nfa[node]:
@@ -537,18 +548,15 @@ def dfa(nfa: list[list[Edge]]) -> ContentMatch:
                         out.append(DFAState(term, set))
                     if n not in set:
                         set.append(n)
-        state = ContentMatch((len(nfa) - 1) in states)
-        labeled[",".join([str(s) for s in states])] = state
         for i in range(len(out)):
             out[i][1].sort(key=cmp_to_key(cmp))
-            states = out[i][1]
-            find_by_key = ",".join(str(s) for s in states)
-            state.next.append(
-                MatchEdge(out[i][0], labeled.get(find_by_key) or explore(states)),
-            )
-        return state
-
-    return explore(null_from(nfa, 0))
+            next_states = out[i][1]
+            next_state = labeled.get(",".join(str(s) for s in next_states))
+            if next_state is None:
+                next_state = make(next_states)
+                work.append((next_state, next_states))
+            state.next.append(MatchEdge(out[i][0], next_state))
+    return start
 
 
 def check_for_dead_ends(match: ContentMatch, stream: TokenStream) -> None:
